@@ -1524,7 +1524,17 @@ impl ElementRaw {
     }
 
     /// sort all sub-elements of this element
-    pub(crate) fn sort(&mut self) {
+    ///
+    /// `version` is the version of the file(s) that contain the parent of this element. The position of a sub element
+    /// inside its parent can differ between versions, so the sub elements must be ordered according to the version in use.
+    pub(crate) fn sort(&mut self, version: AutosarVersion) {
+        // an element with its own file membership could be limited to files with a higher version
+        let version = self
+            .file_membership
+            .iter()
+            .filter_map(|weak_file| weak_file.upgrade().map(|file| file.version()))
+            .min()
+            .unwrap_or(version);
         match self.elemtype.content_mode() {
             ContentMode::Sequence | ContentMode::Choice | ContentMode::Bag => {
                 // sort the content if sorting is allowed (!ordered) and there is more than one child element
@@ -1535,9 +1545,14 @@ impl ElementRaw {
                     for ec_elem in &self.content {
                         if let ElementContent::Element(elem) = ec_elem {
                             // descend into the element and sort it before doing anything else with it
-                            elem.sort();
-                            let (_, elem_indices) =
-                                self.elemtype.find_sub_element(elem.element_name(), u32::MAX).unwrap();
+                            elem.0.write().sort(version);
+                            // use the position of the sub element in the current version; an element that only exists in
+                            // other versions (loaded in non-strict mode) is sorted according to one of these
+                            let (_, elem_indices) = self
+                                .elemtype
+                                .find_sub_element(elem.element_name(), version as u32)
+                                .or_else(|| self.elemtype.find_sub_element(elem.element_name(), u32::MAX))
+                                .unwrap();
                             sorting_vec.push((elem_indices, elem.clone()));
                         }
                         // Sequence, Choice and Bag do not have character content, so else {} is not needed
@@ -1558,7 +1573,7 @@ impl ElementRaw {
                     // in either case we need to descend into the child element(s)
                     for ec in &self.content {
                         if let ElementContent::Element(elem) = ec {
-                            elem.sort();
+                            elem.0.write().sort(version);
                         }
                     }
                 }
